@@ -202,7 +202,7 @@ where
                         }
                     }
                     while got.len() < want {
-                        match tokio::time::timeout(Duration::from_millis(400), net.receive()).await {
+                        match tokio::time::timeout(Duration::from_millis(2500), net.receive()).await {
                             Ok(Ok(m)) => got.push(m.encode()),
                             Ok(Err(e)) => {
                                 err = Some(format!("{e}"));
